@@ -36,7 +36,7 @@ def rows_of(df) -> list:
 
 def stamps(T, step=15.0):
     """T time stamps, most recent = 0, oldest first."""
-    return [-step * (T - 1 - t) for t in range(T)]
+    return [0.0 - step * (T - 1 - t) for t in range(T)]     # (never -0.0: it does not survive an int round trip bit-for-bit)
 
 
 def typed_rows(ceilo, dt, heights):
@@ -240,7 +240,7 @@ def lcg_deck_scene(n, k, d, amp, seed):
     T = n
     strays = set(int(round(i * (T - 1) / max(k - 1, 1))) for i in range(k)) if k > 1 else {T // 2}
     for t in range(T):
-        dt = -15. * (T - 1 - t)
+        dt = 0.0 - 15. * (T - 1 - t)
         hs = [1900. + 10 * round(amp / 10 * (next(g) + next(g) + next(g) - 1.5))]
         if t in strays:
             hs = [1900. + d + 10 * round(2 * (next(g) - 0.5))]
